@@ -10,6 +10,7 @@ import (
 	"fmt"
 	"io"
 	"testing"
+	"time"
 	"testing/iotest"
 
 	"github.com/wollac/iota-crypto-demo/pkg/ed25519"
@@ -93,6 +94,22 @@ func (r *dataWithErrReader) Read(p []byte) (int, error) {
 	r.done = true
 	n, _ := r.src.Read(p)
 	return n, io.ErrNoProgress
+}
+
+// reentrantReader calls GenerateKey (with a reader of its own) from inside its first Read
+type reentrantReader struct {
+	src  *bytes.Reader
+	used bool
+}
+
+func (r *reentrantReader) Read(p []byte) (int, error) {
+	if !r.used {
+		r.used = true
+		if _, _, err := ed25519.GenerateKey(bytes.NewReader(bytes.Repeat([]byte{0x42}, 32))); err != nil {
+			return 0, err
+		}
+	}
+	return r.src.Read(p)
 }
 
 type failingReader struct{}
@@ -256,6 +273,28 @@ func checkSign(c signCase) (h.Info, error) {
 		}
 		if s1.Len() != s2.Len() {
 			return info, fmt.Errorf("GenerateKey(reader kind #%d) left %d bytes in the stream, crypto/ed25519 leaves %d", ri, s2.Len(), s1.Len())
+		}
+	}
+	// a reader whose Read itself needs a key (an entropy source that derives its bytes from another key):
+	// GenerateKey is re-entered from inside the caller's Read
+	{
+		type res struct {
+			pub  ed25519.PublicKey
+			priv ed25519.PrivateKey
+			err  error
+		}
+		ch := make(chan res, 1)
+		go func() {
+			pub, priv, err := ed25519.GenerateKey(&reentrantReader{src: bytes.NewReader(stream)})
+			ch <- res{pub, priv, err}
+		}()
+		select {
+		case r := <-ch:
+			if r.err != nil || !bytes.Equal(r.priv, priv) || !bytes.Equal(r.pub, pub) {
+				return info, fmt.Errorf("GenerateKey(reader over seed %x whose Read calls GenerateKey itself) = %x, %x, %v; want the key of the seed", seed, []byte(r.pub), []byte(r.priv), r.err)
+			}
+		case <-time.After(60 * time.Second):
+			h.FailAndExit("C07", "sign-vs-stdlib", c, fmt.Errorf("GenerateKey did not return within 60 s for a reader whose Read calls GenerateKey itself (seed %x): no key is produced, crypto/ed25519 returns the key of the seed", seed))
 		}
 	}
 	// one reader object asked for several keys: a stream that repeats the same 32 bytes (a deterministic
@@ -465,8 +504,16 @@ func genSign(t *rapid.T) signCase {
 	default:
 		n = rapid.IntRange(301, 2000).Draw(t, "nlong")
 	}
-	return signCase{Seed: seed, Msg: h.BytesN(t, "msg", n)}
+	msg := h.BytesN(t, "msg", n)
+	if h.Pick(t, "magic", 11, 1) == 1 { // messages that begin with a domain-separation string of a neighbouring scheme
+		pre := h.OneOf(t, "magicpre", magicPrefixes...)
+		msg = append([]byte(pre), msg...)
+	}
+	return signCase{Seed: seed, Msg: msg}
 }
+
+// strings that other signature schemes and protocols put in front of what they hash
+var magicPrefixes = []string{"SigEd25519 no Ed25519 collisions", "SigEd25519 no Ed25519 collisions\x00\x00", "SigEd25519 no Ed25519 collisions\x01\x00", "SigEd448", "\x19Ethereum Signed Message:\n32", "Bitcoin Signed Message:\n", "ECVRF", "\x03\x01", "\x03\x02", "ed25519 seed", "mnemonic"}
 
 func TestSign(t *testing.T) {
 	h.Run(t, h.Sub[signCase]{
@@ -559,6 +606,51 @@ func TestEveryLength(t *testing.T) {
 			}
 		},
 		Check: checkSign,
+	})
+}
+
+// every message length 301..8400 with the three cheap assertions (the full case of checkSign costs too much
+// for 8000 lengths): a buffer of any fixed size between the key material and the message is exactly full for
+// one of these lengths
+func TestEveryLongerLength(t *testing.T) {
+	type lenCase struct {
+		N int `json:"n"`
+	}
+	h.RunEnum(t, h.Enum[lenCase]{
+		Prop: "C07", Name: "sign-verify-every-length-301..8400",
+		Rule: "complete enumeration of message lengths 301..8400 (pattern seed and message): Sign = crypto/ed25519.Sign byte for byte, Verify accepts that signature, Verify rejects it for the message with one bit flipped; all non-trivial",
+		Each: func(yield func(lenCase) bool) {
+			for n := 301; n <= 8400; n++ {
+				if !yield(lenCase{n}) {
+					return
+				}
+			}
+		},
+		Check: func(c lenCase) (h.Info, error) {
+			info := h.Info{Class: "len/enumerated", NT: true}
+			seed := make([]byte, 32)
+			for i := range seed {
+				seed[i] = byte(c.N + i*13)
+			}
+			msg := make([]byte, c.N)
+			for i := range msg {
+				msg[i] = byte(i*7 + c.N + i>>8)
+			}
+			std := stded.NewKeyFromSeed(seed)
+			want := stded.Sign(std, msg)
+			priv := ed25519.NewKeyFromSeed(seed)
+			if got := ed25519.Sign(priv, msg); !bytes.Equal(got, want) {
+				return info, fmt.Errorf("Sign(seed %x, pattern message of %d bytes) = %x, crypto/ed25519 %x", seed, c.N, got, want)
+			}
+			if !ed25519.Verify(ed25519.PublicKey(std[32:]), msg, want) {
+				return info, fmt.Errorf("Verify rejects the crypto/ed25519 signature of a pattern message of %d bytes (seed %x)", c.N, seed)
+			}
+			msg[c.N/2] ^= 4
+			if ed25519.Verify(ed25519.PublicKey(std[32:]), msg, want) {
+				return info, fmt.Errorf("Verify accepts the signature of a %d-byte message for the message with one bit flipped (seed %x)", c.N, seed)
+			}
+			return info, nil
+		},
 	})
 }
 
